@@ -155,6 +155,9 @@ func (g *EvGen) Next(ts int64) *Event {
 	if g.family == "sortable" {
 		return g.nextSortable(ts)
 	}
+	if g.family == "layout" {
+		return g.nextLayout(ts)
+	}
 	g.n++
 	vid := fmt.Sprintf("%s%d", g.prefix, g.n)
 	w := &jw{flat: map[string]Val{}}
